@@ -4,6 +4,7 @@ import CvDriver.C15
 import CvDriver.C11
 import CvDriver.Mod
 import CvDriver.C20
+import CvDriver.C13
 open Drv
 
 structure DState where
@@ -25,6 +26,9 @@ def stepLine (s : DState) (ln : Nat) (line : String) : DState × List String :=
     | none =>
     match c11 s.ms ln t with
     | some (m, o) => ({ s with ms := m }, o)
+    | none =>
+    match c13 ln t with
+    | some o => (s, o)
     | none =>
     match c20 s.script ln t with
     | some (m, o) => ({ s with script := m }, o)
